@@ -161,7 +161,14 @@ class Array:
                 chunk_data = [parse_data(part, type_code=self.type_code) for part in raw_bytes]
                 data_.extend(chunk_data)
 
-            data = np.stack(data_, axis=0)
+            if data_:
+                data = np.stack(data_, axis=0)
+            else:
+                data = np.empty((0, *self.shape[1:]), dtype=self.dtype)
+
+        if isinstance(indexers[0], (int, np.integer)):
+            # integer indexers drop the axis
+            return data[(0, *indexers[1:])]
 
         new_indexers = tuple(cons(slice(None), indexers[1:]))
         return data[new_indexers]
